@@ -138,6 +138,9 @@ def _celtypes_post(module, state):
     if "dt" in state:
         from . import times
         times.uninstall_fake_datetime(state["dt"])
+        module.timezone = times.wrap_pendulum_timezone(module.timezone)
+        # an (empty) alias table probed with a symbolic zone name must not hash -- and thereby concretise -- the name
+        module.TimestampType.TZ_ALIASES = cont.SDict(module.TimestampType.TZ_ALIASES)
     module.re = regex.ReModuleShim()
     _wrap_patterns(module.__dict__)
 
